@@ -91,19 +91,27 @@ package parse
 //@   ensures scanLeft == old(scanLeft)
 
 //@ func parse.splitMap(s, addKV) (err)
-//@   props C16
+//@   props C16 C15
 //@   safety C16
 //@   requires addKV != nil
 //@   modifies *
+//@   at call fmt.Errorf("unexpected string literal: %s":
+//@     assert C15_a_literal_in_the_wrong_position_is_an_error: !inKey && !(inValue && curKey != "")
+//@   at call fmt.Errorf("unexpected colon":
+//@     assert C15_a_colon_in_the_wrong_position_is_an_error: inValue || curKey == ""
 //@   loop 0:
 //@     invariant scanLeft >= 0
 //@     decreases scanLeft, b2i(tok != -1)
 
 //@ func parse.splitStringsSlice(s, addVal) (err)
-//@   props C16
+//@   props C16 C15 C11
 //@   safety C16
 //@   requires addVal != nil
 //@   modifies *
+//@   at call fmt.Errorf("unexpected string literal: %s":
+//@     assert C15_C11_a_literal_that_does_not_follow_a_separator_is_an_error: !inValue
+//@   at call fmt.Errorf("unexpected token %s with value: %q":
+//@     assert C15_C11_any_other_token_is_an_error: true
 //@   loop 0:
 //@     invariant scanLeft >= 0
 //@     decreases scanLeft, b2i(tok != -1)
